@@ -433,6 +433,20 @@ def corpus_program():
     return {"sources": src, "steps": steps}
 
 
+def corpus_program_big():
+    """Two constants of MORE THAN 1000 elements that differ only in the middle (numpy abbreviates the text of such arrays), put through
+    the same operators: what was computed for one must not be handed out for the other."""
+    a = [float(i % 7) for i in range(1001)]
+    b = list(a)
+    b[500] = 42.0
+    src = [{"t": "arg", "kind": "F23", "dtype": L.F32, "shape": [2, 3]},
+           {"t": "const", "kind": "FV", "dtype": L.F32, "shape": [1001], "value": a},
+           {"t": "const", "kind": "FV", "dtype": L.F32, "shape": [1001], "value": b}]
+    steps = [{"t": "neg_FV", "args": [1]}, {"t": "neg_FV", "args": [2]}, {"t": "abs_FV", "args": [2]}, {"t": "abs_FV", "args": [1]},
+             {"t": "identity_FV", "args": [2]}, {"t": "identity_FV", "args": [1]}]
+    return {"sources": src, "steps": steps}
+
+
 def run(run: Run) -> int:
     run.check_theorems(PROPS, CONE, thorough_coqchk=(run.tier == "thorough"))
     quick = run.tier == "quick"
@@ -443,7 +457,7 @@ def run(run: Run) -> int:
     n_prog = 30 if quick else 900
     corpus_stats = {}
     try:
-        progs = [corpus_program()] + [gen_c07_program(rng, world.tmpl) for _ in range(n_prog)]
+        progs = [corpus_program(), corpus_program_big()] + [gen_c07_program(rng, world.tmpl) for _ in range(n_prog)]
         for prog in progs:
             ck.bump("steps_per_program", str(len(prog["steps"])))
             for backend in BACKENDS:
